@@ -257,6 +257,11 @@ def c02_forms(extended):
     add("f", "invoke(echo_int, function address) (pointer as integer)", FA + " sink(e, Wd::invoke<int(int)>(e.sb, \"echo_int\", fa));")
     # structs / std::arrays of structs that contain raw pointers, and foreign wrappers, into integer arrays
     add("r", "store volatile<unsigned long long[2]> = array of structs holding raw pointers", "struct Hd { int* p; }; Hd h[2] = { { e.raw() }, { e.raw() } }; auto& v = *Wd::tptr<unsigned long long[2]>(e.sb, 512); v = h; sink(e, v[0]);")
+    # (round 18) element types that are neither fundamental nor classes: unions and pointers to members
+    add("r", "store volatile<unsigned long long[2]> = array of unions holding raw pointers", "union Hu { int* p; unsigned long long id; }; Hu h[2]; h[0].p = e.raw(); h[1].p = e.raw(); auto& v = *Wd::tptr<unsigned long long[2]>(e.sb, 512); v = h; sink(e, v[0]);")
+    add("r", "store volatile<unsigned long long[2]> = std::array of unions holding raw pointers", "union Hu { int* p; unsigned long long id; }; std::array<Hu, 2> h; h[0].p = e.raw(); h[1].p = e.raw(); auto& v = *Wd::tptr<unsigned long long[2]>(e.sb, 512); v = h; sink(e, v[0]);")
+    add("r", "init tainted<unsigned long long[2]> = array of unions holding raw pointers", "union Hu { int* p; unsigned long long id; }; Hu h[2]; h[0].p = e.raw(); h[1].p = e.raw(); tainted<unsigned long long[2], S> t; t = h; auto& v = *Wd::tptr<unsigned long long[2]>(e.sb, 512); v = t; sink(e, v[0]);")
+    add("f", "store volatile<unsigned long long[2]> = array of pointers to members", "struct Wm { int m; }; int Wm::* h[2] = { &Wm::m, &Wm::m }; auto& v = *Wd::tptr<unsigned long long[2]>(e.sb, 512); v = h; sink(e, v[0]);")
     add("r", "store volatile<unsigned long long[2]> = std::array of structs holding raw pointers", "struct Hd { int* p; }; std::array<Hd, 2> h{ { { e.raw() }, { e.raw() } } }; auto& v = *Wd::tptr<unsigned long long[2]>(e.sb, 512); v = h; sink(e, v[0]);")
     add("r", "store volatile<unsigned long long[2]> = array of tainted<pint,other>", FP + " tainted<pint, NS> h[2] = { fp, fp }; auto& v = *Wd::tptr<unsigned long long[2]>(e.sb, 512); v = h; sink(e, v[0]);")
     # the bulk helpers with arrays of raw pointers, and with wrappers of another sandbox type
